@@ -128,7 +128,7 @@ impl<'a> ScriptEvaluator<'a> {
                     if self.ip + 1 > self.n_bytes {
                         return Err(ScriptError::UnexpectedEof);
                     }
-                    let val = ScriptEvaluator::read_uint(&self.bytes[self.ip..], 1)?;
+                    let val = ScriptEvaluator::read_uint(&self.bytes[self.ip + 1..], 1)?;
                     self.ip += 1;
                     val
                 }
@@ -136,7 +136,7 @@ impl<'a> ScriptEvaluator<'a> {
                     if self.ip + 2 > self.n_bytes {
                         return Err(ScriptError::UnexpectedEof);
                     }
-                    let val = ScriptEvaluator::read_uint(&self.bytes[self.ip..], 2)?;
+                    let val = ScriptEvaluator::read_uint(&self.bytes[self.ip + 1..], 2)?;
                     self.ip += 2;
                     val
                 }
@@ -144,7 +144,7 @@ impl<'a> ScriptEvaluator<'a> {
                     if self.ip + 4 > self.n_bytes {
                         return Err(ScriptError::UnexpectedEof);
                     }
-                    let val = ScriptEvaluator::read_uint(&self.bytes[self.ip..], 4)?;
+                    let val = ScriptEvaluator::read_uint(&self.bytes[self.ip + 1..], 4)?;
                     self.ip += 4;
                     val
                 }
